@@ -1120,15 +1120,20 @@ class ChannelFileRead(ChannelFile):
             self._buffer = self._buffer[n:]
         return ret
 
+    @staticmethod
+    def _newline(data):
+        # items may be text or bytes
+        return b"\n" if isinstance(data, bytes) else "\n"
+
     def readline(self) -> str:
         if self._buffer is not None:
-            i = self._buffer.find("\n")
+            i = self._buffer.find(self._newline(self._buffer))
             if i != -1:
                 return self.read(i + 1)
             line = self.read(len(self._buffer) + 1)
         else:
             line = self.read(1)
-        while line and line[-1] != "\n":
+        while line and line[-1:] != self._newline(line):
             c = self.read(1)
             if not c:
                 break
